@@ -27,18 +27,18 @@ type Harness struct {
 
 // ReplayFile is what a violation is reported as.
 type ReplayFile struct {
-	Property  string    `json:"property"`
-	Signature string    `json:"signature"`
-	Invariant string    `json:"invariant"`
-	Detail    string    `json:"detail"`
-	Case      *Case     `json:"case"`
-	OrigOps   int       `json:"original_ops"`
-	Trace     []string  `json:"trace"`
-	LogHash   string    `json:"log_hash"`
-	GoVersion string    `json:"go_version"`
-	Minimised bool      `json:"minimised"`
-	Variant   string    `json:"variant"`
-	Note      string    `json:"note,omitempty"`
+	Property  string         `json:"property"`
+	Signature string         `json:"signature"`
+	Invariant string         `json:"invariant"`
+	Detail    string         `json:"detail"`
+	Case      *Case          `json:"case"`
+	OrigOps   int            `json:"original_ops"`
+	Trace     []string       `json:"trace"`
+	LogHash   string         `json:"log_hash"`
+	GoVersion string         `json:"go_version"`
+	Minimised bool           `json:"minimised"`
+	Variant   string         `json:"variant"`
+	Note      string         `json:"note,omitempty"`
 	Faults    map[string]int `json:"faults,omitempty"`
 }
 
@@ -57,23 +57,24 @@ type foundViolation struct {
 
 // WorkerSummary is written by each worker process.
 type WorkerSummary struct {
-	Harness    string            `json:"harness"`
-	Variant    string            `json:"variant"`
-	Worker     int               `json:"worker"`
-	Runs       int               `json:"runs"`
-	Nontrivial int               `json:"nontrivial_runs"`
-	Hashes     []string          `json:"hashes"`
-	Faults     map[string]int    `json:"faults"`
-	Probes     map[string]int    `json:"probes"`
-	SimMs      int64             `json:"sim_ms"`
-	Steps      int64             `json:"steps"`
-	Violations []*foundViolation `json:"violations"`
-	OtherProps map[string]int    `json:"other_property_violations"`
-	Errors     []string          `json:"errors"`
-	Samples    []*Case           `json:"samples"`
-	WallS      float64           `json:"wall_s"`
-	FirstSeed  uint64            `json:"first_seed"`
-	LastSeed   uint64            `json:"last_seed"`
+	Harness      string            `json:"harness"`
+	Variant      string            `json:"variant"`
+	Worker       int               `json:"worker"`
+	Runs         int               `json:"runs"`
+	StoppedEarly bool              `json:"stopped_early,omitempty"`
+	Nontrivial   int               `json:"nontrivial_runs"`
+	Hashes       []string          `json:"hashes"`
+	Faults       map[string]int    `json:"faults"`
+	Probes       map[string]int    `json:"probes"`
+	SimMs        int64             `json:"sim_ms"`
+	Steps        int64             `json:"steps"`
+	Violations   []*foundViolation `json:"violations"`
+	OtherProps   map[string]int    `json:"other_property_violations"`
+	Errors       []string          `json:"errors"`
+	Samples      []*Case           `json:"samples"`
+	WallS        float64           `json:"wall_s"`
+	FirstSeed    uint64            `json:"first_seed"`
+	LastSeed     uint64            `json:"last_seed"`
 }
 
 func envInt(k string, def int) int {
@@ -248,7 +249,18 @@ func WorkerMain(hs []*Harness) int {
 	hashes := map[string]bool{}
 	bySig := map[string]*foundViolation{}
 
+	maxHeap := uint64(envInt("VERIF_MAX_HEAP_MB", 1536)) << 20
 	for i := 0; i < maxRuns && time.Since(start) < budget; i++ {
+		if i%64 == 63 {
+			// goroutines that the code under test leaks (blocked for ever in a finished bubble) keep their memory:
+			// a worker whose heap has grown large stops in good order and is replaced by a fresh process
+			var ms runtime.MemStats
+			runtime.ReadMemStats(&ms)
+			if ms.HeapInuse > maxHeap {
+				sum.StoppedEarly = true
+				break
+			}
+		}
 		seed := Decide(seedBase, "run", strconv.Itoa(worker), strconv.Itoa(i))
 		if i == 0 {
 			sum.FirstSeed = seed
